@@ -41,6 +41,18 @@ I32Bytes(n) == IF n >= 0 THEN BE32(n)
                ELSE LET m == (n + 2147483647) + 1 IN   \* n + 2^31 in 0..2^31-1
                     <<128 + m \div 16777216, (m \div 65536) % 256, (m \div 256) % 256, m % 256>>
 
+\* Structural equality that never compares payloads of different kinds (TLC refuses to compare an
+\* integer with a record; projections of arbitrary implementation results may differ in kind anywhere)
+RECURSIVE Same(_, _), SameSeq(_, _), SameKV(_, _)
+Same(a, b) == IF a.t # b.t THEN FALSE
+              ELSE IF a.t = "arr" THEN SameSeq(a.v, b.v)
+              ELSE IF a.t = "map" THEN SameKV(a.v, b.v)
+              ELSE a.v = b.v
+SameSeq(s, u) == IF Len(s) # Len(u) THEN FALSE ELSE IF Len(s) = 0 THEN TRUE
+                 ELSE Same(s[1], u[1]) /\ SameSeq(Tail(s), Tail(u))
+SameKV(s, u) == IF Len(s) # Len(u) THEN FALSE ELSE IF Len(s) = 0 THEN TRUE
+                ELSE s[1][1] = u[1][1] /\ Same(s[1][2], u[1][2]) /\ SameKV(Tail(s), Tail(u))
+
 \* ---------------------------------------------------------------- leaf tables
 RECURSIVE Lookup(_, _)
 Lookup(tbl, k) == IF Len(tbl) = 0 THEN <<"none">>
